@@ -658,6 +658,48 @@ func c13ValidateCases(c *fw.Ctx, chn c13Chain, count int, ops, outs *[]string) {
 	if len(chn.states) < 2 {
 		return
 	}
+	// corner: the genesis STATE has no timestamps; ValidateHeader on it with the zero parent ID
+	// indexes ts[-1]. Not an acceptance, so no statement violation; model and code must agree.
+	{
+		g := chn.states[0]
+		bh := types.BlockHeader{Timestamp: time.Unix(r.Int63n(1<<32), 0)}
+		var err error
+		p, _ := fw.Recover(func() { err = consensus.ValidateHeader(g, bh) })
+		got := "accept"
+		if p {
+			got = "panic"
+			res.Count("validate:genesis-state-panic")
+		} else if err != nil {
+			got = "reject ?"
+		}
+		line := fmt.Sprintf("pow-validate %s %s %s", c13NetTokens(g.Network), c13StateTokens(g), c13HeaderTokens(bh))
+		res.Eval(line, false)
+		*ops = append(*ops, line)
+		*outs = append(*outs, got)
+	}
+	// SufficientlyHeavierThan on states of this chain (same chain at different heights)
+	for k := 0; k < 8; k++ {
+		a, b := chn.states[1+r.Intn(len(chn.states)-1)], chn.states[1+r.Intn(len(chn.states)-1)]
+		var ab, ba bool
+		p1, _ := fw.Recover(func() { ab = a.SufficientlyHeavierThan(b) })
+		p2, _ := fw.Recover(func() { ba = b.SufficientlyHeavierThan(a) })
+		if !p1 && !p2 && ab && ba {
+			res.Violate(fw.Violation{Key: "c13-heavier-symmetric", What: "two states of one chain are each sufficiently heavier than the other",
+				Replay: map[string]any{"kind": "heavier", "s": c13StateTokens(a), "t": c13StateTokens(b)}, Expected: "asymmetric", Observed: "both true"})
+		}
+		res.Count("heavier:chain-pairs")
+		line := fmt.Sprintf("pow-heavier %s %s", c13StateTokens(a), c13StateTokens(b))
+		out := "panic"
+		if !p1 {
+			out = "ok 0"
+			if ab {
+				out = "ok 1"
+			}
+		}
+		res.Eval(line, true)
+		*ops = append(*ops, line)
+		*outs = append(*outs, out)
+	}
 	for k := 0; k < count; k++ {
 		idx := 1 + r.Intn(len(chn.states)-1)
 		if r.Intn(3) == 0 && len(chn.states) > 12 { // early states: even counts of timestamps
